@@ -40,7 +40,9 @@ META = dict(
     assumptions=["join() returns (the worker dies on SIGTERM)",
                  "queue.put() is visible to the next empty()/get() (no feeder-thread latency)",
                  "asynchronous events (signals, watchdog callback, worker deaths) happen at the fakes' delivery points: "
-                 "inside sleep(), inside action_queue.empty(), inside is_alive() called by start()"],
+                 "inside sleep(), inside action_queue.empty(), inside is_alive() called by start(), and inside the startup "
+                 "windows of prepare_workers / ReloadOneAction.handle (Process.start(), the is_alive() and the Event.wait() of "
+                 "_wait_for_worker_startup)"],
 )
 
 
